@@ -16,6 +16,13 @@ NOTES = ("Every check = TLA+ specification under spec/ checked by TLC + conforma
          "known_findings.json lists genuine defects (known / fixed).")
 NOT_APPLICABLE = {}
 CHECKS = {
+    "C10": {
+        "level": "model_checking",
+        "technique": "TLA+ spec BlockLayout.tla (used widths of CSS 2.1 10.3.3/10.4, margin collapsing 8.3.1 as recursive operators with TLC-checked equations) model-checked by TLC; every scenario laid out by layout.Layout and compared at 1/64 px",
+        "text": "TLC enumerates all horizontal value combinations and all forests of <= 2 nested blocks (simulation beyond), checks the width equation and "
+                "height sanity on the specification's own results, and emits the integer geometry; the real layout must reproduce it for every box.",
+        "note": "LTR, integer lengths, no floats/clearance; two known findings (over-constrained margin-right not recomputed; through-collapsed first child).",
+    },
     "C08": {
         "level": "model_checking",
         "technique": "TLA+ spec Declarations.tla (var() substitution stack machine vs declarative value; block, shorthand and spelling tables) model-checked by TLC; every scenario replayed through validation.PreprocessDeclarations / computed styles",
